@@ -1,9 +1,11 @@
 #!/bin/sh
-# run every registered quick (or thorough) check once; print one line each
+# run every registered quick (or thorough) check once (or only those named after the tier); print one line each
 TIER=${1:-quick}
+[ $# -gt 0 ] && shift
+LIST=${*:-C01 C02 C03 C04 C05 C06 C07 C08 C09 C10 C11 C12 C13 C14 C15 C16 C17 C18 C19 C20}
 OUT=$(mktemp -d /tmp/runall.XXXXXX)
 cd "$(dirname "$0")/.."
-for c in C01 C02 C03 C04 C05 C06 C07 C08 C09 C10 C11 C12 C13 C14 C15 C16 C17 C18 C19 C20; do
+for c in $LIST; do
   ./check $c --tier $TIER > $OUT/$c.out 2>&1; rc=$?
   echo "rc=$rc $(grep -E "^$c tier" $OUT/$c.out | tail -1) known=$(grep -c KNOWN-FINDING $OUT/$c.out)"
   if [ $rc -ne 0 ]; then tail -40 $OUT/$c.out | cut -c1-600; fi
